@@ -66,6 +66,10 @@ def textStep : List String → Option String
       | some tbl => showRes hexOfBytes (Fn.toStringDoc (fmtOf tbl) true b) | none => "bad-request"
   | ["tostrcheck", d, f] => some <| withDoc d fun b => match parseFmt f with
       | some tbl => tostrCheck tbl b | none => "bad-request"
+  -- RFC 8259 documents must be accepted with the meaning the strict reader gives them
+  | ["spec:jparse", h] => some <| withDoc h fun b => match Strict.parse b with
+      | some v => "ok " ++ showJV v
+      | none => "skip"
   | ["strict", h] => some <| withDoc h fun b => showOpt showJV (Strict.parse b)
   | _ => none
 
